@@ -38,6 +38,9 @@ type params struct {
 	// ResumeAt > 0: the "resume" leg - the station under test sends to the reference peer, which
 	// answers the proposal with an offset request (!n / An): the transfer resumes at that offset.
 	ResumeAt int `json:"resume_at,omitempty"`
+	// GateFirst: on both stations the first periodic report stays inside UpdateStatus until both Exchange
+	// calls have returned; the reports still owed (in particular that transfer's Done) arrive afterwards.
+	GateFirst bool `json:"gate_first,omitempty"`
 }
 
 var Check = &vrt.Check{
@@ -105,6 +108,12 @@ func plan(seed int64, tier string) []vrt.Case {
 			cs = append(cs, vrt.Case{ID: fmt.Sprintf("s%d-r%d", i, rep), Params: vrt.MustParams(params{Seed: seed, Index: i, DelayMS: s.delay, Size: s.size, NMsgs: s.n, Modem: s.modem, Rep: rep, TxDelayMS: s.tx, UpdDelayMS: s.upd, TxHoldMS: s.hold}), TimeoutS: 600})
 		}
 	}
+	// a display that is still busy with a periodic report when the exchange ends (paced, so that periodic reports happen)
+	for i, sz := range []int{2600, 5200} {
+		for rep := 0; rep < reps; rep++ {
+			cs = append(cs, vrt.Case{ID: fmt.Sprintf("gate%d-r%d", i, rep), Params: vrt.MustParams(params{Seed: seed, Index: 2000 + i, DelayMS: 50, Size: sz, NMsgs: 1 + i, Rep: rep, GateFirst: true}), TimeoutS: 600})
+		}
+	}
 	// resumed transfers (offset requests by the remote), paced so that periodic reports happen
 	for i, at := range []int{1, 125, 1000, 2500} {
 		for rep := 0; rep < reps; rep++ {
@@ -120,6 +129,10 @@ type recorder struct {
 	log   []fbb.Status
 	delay time.Duration
 	sink  int
+	// gate (optional): the first periodic report blocks inside UpdateStatus until the gate is closed (the
+	// harness closes it when Exchange has returned): a display that is busy while the exchange ends.
+	gate  chan struct{}
+	gated bool
 }
 
 func (r *recorder) UpdateStatus(s fbb.Status) {
@@ -132,6 +145,18 @@ func (r *recorder) UpdateStatus(s fbb.Status) {
 	}
 	if r.delay > 0 && !s.Done {
 		time.Sleep(r.delay) // a slow consumer of periodic reports (the report is logged when it completes)
+	}
+	if r.gate != nil && !s.Done {
+		r.mu.Lock()
+		first := !r.gated
+		r.gated = true
+		r.mu.Unlock()
+		if first {
+			select {
+			case <-r.gate:
+			case <-time.After(2 * time.Minute):
+			}
+		}
 	}
 	r.mu.Lock()
 	r.log = append(r.log, s)
@@ -318,12 +343,19 @@ func attemptPair(c vrt.Case) (vrt.Obs, map[string]bool) {
 	ra, rb := &recorder{delay: time.Duration(p.UpdDelayMS) * time.Millisecond}, &recorder{delay: time.Duration(p.UpdDelayMS) * time.Millisecond}
 	sa.ModemTxDelay, sb.ModemTxDelay = time.Duration(p.TxDelayMS)*time.Millisecond, time.Duration(p.TxDelayMS)*time.Millisecond
 	sa.ModemTxHold, sb.ModemTxHold = time.Duration(p.TxHoldMS)*time.Millisecond, time.Duration(p.TxHoldMS)*time.Millisecond
+	if p.GateFirst {
+		ra.gate, rb.gate = make(chan struct{}), make(chan struct{})
+	}
 	sa.Status, sb.Status = ra, rb
 	sa.Modem, sb.Modem = p.Modem, p.Modem
 	var pl vpipe.Plan
 	pl.CutDir = vpipe.NoCut
 	pl.WriteDelay = [2]time.Duration{time.Duration(p.DelayMS) * time.Millisecond, time.Duration(p.DelayMS) * time.Millisecond}
 	res, _ := b2fx.RunPair(sa, sb, pl, false)
+	if p.GateFirst {
+		close(ra.gate)
+		close(rb.gate)
+	}
 	if res.A.Err != nil || res.B.Err != nil || res.A.Panic != nil || res.B.Panic != nil {
 		o.Violate("exchange-failed", "paced exchange failed: A=%v B=%v panics=%v/%v", res.A.Err, res.B.Err, res.A.Panic, res.B.Panic)
 		return o, missing
